@@ -55,6 +55,23 @@ CHECKS["C12"] = dict(
     note="Trusted: Coq kernel + vm_compute; harness and scripted backend. Axioms: none.",
     technique="Coq proof (invariant over add/remove histories) + in-Coq differential correspondence against a real Peer and a scripted backend", design="6/C12")
 
+CHECKS["C06"] = dict(
+    text="Theorems (Coq, all datasets/requests): without early cut-off the response rows are exactly the window [Offset, Offset+Limit) of the sorted union of all matching rows; with the per-backend cut-off at Limit+Offset (default sort order) the window has the same sort keys at every position and the same length, provided each backend's store is in default order (top-k of a union of sorted lists, proved for any total transitive order with ties); without Sort the rows are equal; the result is sorted by the Sort keys (numeric/string/custom-variable comparison, per-key direction; total preorder proved on keys of one request); rows are matching rows; total_count equals the number of matching rows in wrapped_json. Stream: 1-4 backends with interleaving names, 0-3 sort keys incl. custom variables and keys outside Columns, Limit/Offset incl. 0 and beyond the result, both formats; comparison modulo ties inside Coq.",
+    note=QE_NOTE + " sort.Sort is modelled as a stable insertion sort; agreement is checked modulo ties. Hypothesis of the cut-off theorem (stores in primary-key order) is an assumption about lmd's data, exercised by the stream.",
+    technique="Coq proof (total preorder on sort keys, insertion sort facts, top-k of a union of sorted lists, window arithmetic) + in-Coq differential correspondence modulo ties", design="6/C06")
+CHECKS["C07"] = dict(
+    text="Theorems (Coq, all strings / expressions): the model's regex matcher computes the denotational semantics (Brzozowski derivatives proved correct); a regex text without meta characters compiles to its literal and searching it equals the substring test (all four operator forms, case-insensitive via lower-casing); ^literal$ equals equality; leading/trailing .* can be trimmed; the lower-case shadow column rewriting is sound; unwrapping a single top-level And group is sound; the documented dot heuristic is exhibited as the only deviation (witness). Index pre-selection and Stats grouping are run by the implementation only and checked by the stream: every generated request is evaluated in BOTH parse modes against the model, and the model's two answers must coincide unless the dot heuristic applies.",
+    note=QE_NOTE + " Index pre-selection and Stats grouping are not modelled (correspondence only): a sound index/grouping is what makes the implementation agree with the un-indexed, un-grouped model.",
+    technique="Coq proof (regex derivative matcher correctness, rewriting lemmas) + in-Coq differential correspondence in both parse modes with a cross-mode check", design="6/C07")
+CHECKS["C10"] = dict(
+    text="Theorems (Coq, all values / bodies / request sequences): print_parse (the byte-level printer of the response writer followed by a verified JSON parser returns the value, for every byte string incl. control bytes, quotes, backslashes, invalid UTF-8 after replacement, duplicate keys, any nesting); the body printed for any table of cells parses to the documented shape (rows, optional header row; wrapped object with data/failed/columns/rows_scanned/total_count) with one value per requested column in order; custom variable objects with missing values; the fixed16 header is 16 bytes and its length field equals the body bytes that follow; keep-alive sequences yield one response per parsable request in order, an unparsable one yields one error text and ends the connection. Stream: adversarial cached strings, all tables, unknown/duplicate/reference/virtual columns, both formats, Stats, raw bytes through Response.send and over a real unix-socket listener.",
+    note="Trusted: Coq kernel + vm_compute; harness; jsoniter's string escaping is modelled byte-level and tied by the stream; floats, raw JSON columns and WriteVal tokens enter the shape theorems as a per-cell hypothesis checked per case. Axioms: none.",
+    technique="Coq proof (printer/parser round trip, shape and framing theorems) + in-Coq differential correspondence on raw response bytes", design="6/C10")
+CHECKS["C17"] = dict(
+    text="Theorems (Coq): every operator's serialised spelling parses back to an operator with the same matching behaviour (finite, all 17); the Filter/And/Or/Negate postfix notation rebuilds every filter tree on the parser's stack machine (any depth, any negations). Text level by correspondence: every generated request (all operators x column types, nested negated groups, empty values, custom variable terms, Stats incl. groupable blocks, Sort incl. custom variable keys, Limit/Offset, AuthUser) is parsed in both modes, serialised by Request.String(), parsed again and evaluated; the answer must equal the model's answer to the original, the text must equal the model renderer's text, and the model's own parse.render.parse must answer the same.",
+    note=QE_NOTE + " The text-level round trip (tokenisation of rendered lines) is checked by the stream, the theorems cover operators and tree structure.",
+    technique="Coq proof (operator table, postfix/stack-machine round trip by induction on trees) + in-Coq differential correspondence of parse -> String() -> parse in both modes", design="6/C17")
+
 NOT_APPLICABLE = {}
 
 
